@@ -41,6 +41,35 @@ def isSquareNat (n : Nat) : Option Nat :=
   let r := n.sqrt
   if r * r == n then some r else none
 
+/-- exact integer `n`-th root, if there is one -/
+def iroot (n : Nat) (m : Nat) : Option Nat :=
+  if n == 0 then none
+  else
+    -- binary search on [0, m]
+    let rec go (fuel lo hi : Nat) : Nat :=
+      match fuel with
+      | 0 => lo
+      | fuel + 1 =>
+        if lo ≥ hi then lo
+        else
+          let mid := (lo + hi + 1) / 2
+          if mid ^ n ≤ m then go fuel mid hi else go fuel lo (mid - 1)
+    let r := go (m.log2 + 2) 0 m
+    if r ^ n == m then some r else none
+
+/-- the integer `k` (|k| ≤ 64) with `b ^ k = x`, if there is one -/
+def ilog (b x : Rat) : Option Int :=
+  if b ≤ 0 || b == 1 then none
+  else
+    let rec go (fuel : Nat) (k : Nat) (pw : Rat) : Option Int :=
+      match fuel with
+      | 0 => none
+      | fuel + 1 =>
+        if pw == x then some (k : Int)
+        else if 1 / pw == x then some (-(k : Int))
+        else go fuel (k + 1) (pw * b)
+    go 65 0 1
+
 /-- the double `math.e` as a rational -/
 def eRat : Rat := mkRat 0x15bf0a8b145769 (2 ^ 51)
 
@@ -59,14 +88,27 @@ def qeNum : Num QE where
       if k ≥ 0 then pure (QE.mk' (ratPowNat x.q k.toNat) (x.rep && y.rep))
       else pure (QE.mk' (1 / ratPowNat x.q (-k).toNat) (x.rep && y.rep))
     else if x.q == 1 then pure ⟨1, x.rep && y.rep⟩
+    else if y.q.num == 1 && x.q > 0 && x.q != eRat then
+      -- x ** (1/n) at an exact n-th power
+      match iroot y.q.den x.q.num.natAbs, iroot y.q.den x.q.den with
+      | some a, some b => pure (QE.mk' (mkRat a b) x.rep)
+      | _, _ => throw .unsupported
     else throw .unsupported
   sqrt x :=
     if x.q < 0 then throw .unsupported
     else match isSquareNat x.q.num.natAbs, isSquareNat x.q.den with
       | some a, some b => pure (QE.mk' (mkRat a b) x.rep)
       | _, _ => throw .unsupported
-  cbrt _ := throw .unsupported
-  ln x := if x.q == 1 then pure ⟨0, x.rep⟩ else throw .unsupported
+  cbrt x :=
+    match iroot 3 x.q.num.natAbs, iroot 3 x.q.den with
+    | some a, some b => pure (QE.mk' (if x.q < 0 then -(mkRat a b) else mkRat a b) x.rep)
+    | _, _ => throw .unsupported
+  logb x b :=
+    if x.q == 1 then pure ⟨0, x.rep && b.rep⟩
+    else if b.q == eRat then throw .unsupported
+    else match ilog b.q x.q with
+      | some k => pure ⟨(k : Rat), x.rep && b.rep⟩
+      | none => throw .unsupported
   sin x := if x.q == 0 then pure ⟨0, x.rep⟩ else throw .unsupported
   cos x := if x.q == 0 then pure ⟨1, x.rep⟩ else throw .unsupported
   isZero x := x.q == 0
@@ -76,9 +118,15 @@ def qeNum : Num QE where
 
 /-! ### doubles with a running error bound -/
 
+/-- `v` the double; `err` a first-order bound on its absolute rounding error; `mx`/`mn` the largest
+and the smallest non-zero magnitude among `v` and everything it was computed from (so that the
+harness can recognise runs that leave "ordinary floating-point range", which every property
+excludes). -/
 structure FB where
   v : Float
   err : Float := 0.0
+  mx : Float := 0.0
+  mn : Float := 1.0
   deriving Inhabited
 
 /-- unit roundoff 2⁻⁵³ -/
@@ -89,51 +137,68 @@ def fInf : Float := Float.ofBits 0x7FF0000000000000
 /-- "this value's sign / zero-ness could be flipped by rounding" -/
 def FB.ambiguous (x : FB) : Bool := x.err > 0.0 && x.v.abs ≤ 8.0 * x.err
 
-def FB.round (v err : Float) : FB := ⟨v, err + 2.0 * uRound * v.abs⟩
+def fmax (a b : Float) : Float := if a ≥ b then a else b
+def fmin (a b : Float) : Float := if a ≤ b then a else b
+
+def FB.lit (v : Float) : FB := ⟨v, 0.0, v.abs, if v == 0.0 then 1.0 else fmin 1.0 v.abs⟩
+
+/-- result `v` with propagated error `err`, computed from `srcs` -/
+def FB.round (v err : Float) (srcs : List FB) : FB :=
+  let mx := srcs.foldl (fun m s => fmax m s.mx) (if v.isNaN then fInf else v.abs)
+  let mn := srcs.foldl (fun m s => fmin m s.mn) (if v == 0.0 then 1.0 else fmin 1.0 v.abs)
+  ⟨v, err + 2.0 * uRound * v.abs, mx, mn⟩
 
 def fbNum (mode : Nat) : Num FB where
-  ofNat n := ⟨Float.ofNat n, 0.0⟩
-  e := ⟨Float.ofBits 0x4005bf0a8b145769, 0.0⟩
-  add a b := FB.round (a.v + b.v) (a.err + b.err)
-  sub a b := FB.round (a.v - b.v) (a.err + b.err)
-  neg a := ⟨-a.v, a.err⟩
-  mul a b := FB.round (a.v * b.v) (a.v.abs * b.err + b.v.abs * a.err + a.err * b.err)
+  ofNat n := FB.lit (Float.ofNat n)
+  e := FB.lit (Float.ofBits 0x4005bf0a8b145769)
+  add a b := FB.round (a.v + b.v) (a.err + b.err) [a, b]
+  sub a b := FB.round (a.v - b.v) (a.err + b.err) [a, b]
+  neg a := { a with v := -a.v }
+  mul a b := FB.round (a.v * b.v) (a.v.abs * b.err + b.v.abs * a.err + a.err * b.err) [a, b]
   div a b :=
     let v := a.v / b.v
     let d := b.v.abs - b.err
-    FB.round v (if d > 0.0 then (a.err + v.abs * b.err) / d else fInf)
+    FB.round v (if b.err == 0.0 then a.err / b.v.abs
+      else if d > 0.0 then (a.err + v.abs * b.err) / d else fInf) [a, b]
   powNat a n :=
     let nf := Float.ofNat n
     let v := Float.pow a.v nf
     let e1 := if a.err == 0.0 then 0.0
       else 2.0 * nf * Float.pow a.v.abs (nf - 1.0) * a.err + Float.pow a.err nf
-    FB.round v e1
+    FB.round v e1 [a]
   rpow x y :=
     let v := Float.pow x.v y.v
     let d := x.v - x.err
     let e1 := if x.err == 0.0 && y.err == 0.0 then 0.0
       else if d > 0.0 then 2.0 * v.abs * (y.v.abs * x.err / d + (Float.log x.v).abs * y.err)
       else fInf
-    pure (FB.round v (e1 + 2.0 * uRound * v.abs))
+    pure (FB.round v (e1 + 2.0 * uRound * v.abs) [x, y])
   sqrt x :=
     let v := Float.sqrt x.v
     let d := x.v - x.err
     let e1 := if x.err == 0.0 then 0.0
       else if d > 0.0 then x.err / (2.0 * Float.sqrt d) else fInf
-    pure (FB.round v e1)
+    pure (FB.round v e1 [x])
   cbrt x :=
     let v := Float.cbrt x.v
     let d := x.v.abs - x.err
     let e1 := if x.err == 0.0 then 0.0
       else if d > 0.0 then x.err / (3.0 * Float.cbrt (d * d)) else fInf
-    pure (FB.round v (e1 + 2.0 * uRound * v.abs))
-  ln x :=
-    let v := Float.log x.v
-    let d := x.v - x.err
-    let e1 := if x.err == 0.0 then 0.0 else if d > 0.0 then x.err / d else fInf
-    pure (FB.round v (e1 + 2.0 * uRound * v.abs + 2.0 * uRound))
-  sin x := pure (FB.round (Float.sin x.v) (x.err + 2.0 * uRound + uRound * x.v.abs))
-  cos x := pure (FB.round (Float.cos x.v) (x.err + 2.0 * uRound + uRound * x.v.abs))
+    pure (FB.round v (e1 + 2.0 * uRound * v.abs) [x])
+  logb x b :=
+    let lx := Float.log x.v
+    let lb := Float.log b.v
+    let dx := x.v - x.err
+    let db := b.v - b.err
+    let elx := (if x.err == 0.0 then 0.0 else if dx > 0.0 then x.err / dx else fInf)
+      + 2.0 * uRound * lx.abs + uRound
+    let elb := (if b.err == 0.0 then 0.0 else if db > 0.0 then b.err / db else fInf)
+      + 2.0 * uRound * lb.abs + uRound
+    let v := lx / lb
+    let d := lb.abs - elb
+    pure (FB.round v (if d > 0.0 then (elx + v.abs * elb) / d else fInf) [x, b])
+  sin x := pure (FB.round (Float.sin x.v) (x.err + 2.0 * uRound + uRound * x.v.abs) [x])
+  cos x := pure (FB.round (Float.cos x.v) (x.err + 2.0 * uRound + uRound * x.v.abs) [x])
   isZero x :=
     match mode with
     | 1 => x.v == 0.0 || x.ambiguous
